@@ -25,6 +25,13 @@ CLAIMS["C10"] = dict(engine="E1+E2", technique="CrossHair symbolic execution (z3
          "by z3's FP theory on the interpreted AST. Counterexamples are re-run concretely on the real code before being reported.",
     ref="DESIGN.md §4 C10")
 
+CLAIMS["C17"] = dict(engine="E1+E2", technique="CrossHair symbolic execution (z3) of the real DeflateZipModel.decompress over a contract stub of zlib's Decompress object with an unbounded symbolic expansion size; pysym/z3 for the compress() framing slice",
+    text="For every expanded size (an unbounded symbolic integer), both ways zlib may cut the output (tail left / output pending) and "
+         "both header forms, every path of decompress() materialises at most 256,000 octets, returns the full plaintext when it fits "
+         "and raises the exceeded-size error otherwise; compress() is shown to return exactly the raw DEFLATE body of zlib.compress. "
+         "Counterexamples are replayed with real zlib (constant and pseudo-random plaintexts around the limit, a 64 MiB bomb under tracemalloc).",
+    ref="DESIGN.md §4 C17")
+
 PENDING = {}
 
 
